@@ -62,24 +62,17 @@ func (q *IndexNotificationQueue) Run() {
 			return
 		case <-gc.C:
 			iter.Consume(q.items.Values(), func(h *heap.Heap[*item]) {
-				l := h.Len()
-				for i := 0; i < l; i++ {
-					elem := h.Slice[i]
-					if elem.ctx.Err() != nil {
-						// Reorder
-						elem.revision = 0
-						elem.waitCh <- elem.ctx.Err()
+				// Answer and drop every expired waiter, then restore the heap order of the rest.
+				live := h.Slice[:0]
+				for _, elem := range h.Slice {
+					if err := elem.ctx.Err(); err != nil {
+						elem.waitCh <- err
+						continue
 					}
+					live = append(live, elem)
 				}
-				h.Fix(0)
-				for i := 0; i < l; i++ {
-					elem := h.Peek()
-					if elem.revision == 0 {
-						h.Pop()
-					} else {
-						break
-					}
-				}
+				clear(h.Slice[len(live):])
+				*h = *heap.New(h.Less, live...)
 			})
 		case it := <-q.add:
 			h, _ := q.items.Load(it.table)
